@@ -74,6 +74,25 @@ theorem C15_package_variable_writes : Imeta.Gen.Facts.varWrites = [
     "log.go:SetLogger:jpeg.Logger:assign",
     "log.go:SetLogger:logger:assign"] := by decide
 
+/-- **Fact (regenerated)**: what the log-level guards guard.  Every `if` whose condition asks for the log level
+(`logLevel*()` or a variable assigned from it) has no else branch and a body made of logger call chains only, with the
+ten exceptions listed here, all of which compute block-local values for the message (`:=` definitions, a method call
+on the local event).  In particular no `break`, `continue`, `return`, assignment to an outer variable or other call
+sits under a level guard, and no `switch`, `for` or `return` (outside the guard definitions themselves) depends on the
+level: this is the premise "a log statement never touches the state" of `C15_log_neutral` for the control flow.
+`readIref` used to `break` under such a guard (fixed, see known_findings). -/
+theorem C15_level_guards_guard_logging_only : Imeta.Gen.Facts.logGuards = [
+    "exif2/log.go:*ifdReader.logTraceFunction:if ir.logLevelTrace():*ast.AssignStmt:details := runtime.FuncForPC(pc)",
+    "exif2/log.go:*ifdReader.logTraceFunction:if ir.logLevelTrace():*ast.AssignStmt:pc, _, _, ok := runtime.Caller(2)",
+    "exif2/log.go:*ifdReader.logTraceFunction:if ir.logLevelTrace():*ast.IfStmt:if ok && details != nil { ev.Str(\"fn\", details.Name()) }",
+    "isobmff/iinf.go:*Reader.readInfe:if logLevelDebug():*ast.AssignStmt:ev := logDebug().Str(\"BoxType\", boxType.String()).Object(\"flags\", flags).Uint16(\"itemID\", ...",
+    "isobmff/iinf.go:*Reader.readInfe:if logLevelDebug():*ast.AssignStmt:protectionIndex := bmffEndian.Uint16(buf[i+14 : i+16])",
+    "isobmff/iinf.go:*Reader.readInfe:if logLevelDebug():*ast.ExprStmt:ev.Send()",
+    "isobmff/iinf.go:*Reader.readInfe:if logLevelDebug():*ast.IfStmt:if itemType == itemTypeMime { ev.Str(\"contentType\", contentType.String()) }",
+    "isobmff/log.go:logTraceFunction:if logLevelTrace():*ast.AssignStmt:details := runtime.FuncForPC(pc)",
+    "isobmff/log.go:logTraceFunction:if logLevelTrace():*ast.AssignStmt:pc, _, _, ok := runtime.Caller(2)",
+    "isobmff/log.go:logTraceFunction:if logLevelTrace():*ast.IfStmt:if ok && details != nil { ev.Str(\"fn\", details.Name()) }"] := by decide +kernel
+
 /-- non-vacuity: a two-step program that logs a message derived from the state at debug level -/
 example : (run 0 [Step.act (· + 1), Step.log 1 (fun s : Nat => toString s)] 41).1 = (run panicLevel [Step.act (· + 1), Step.log 1 (fun s : Nat => toString s)] 41).1 := rfl
 
